@@ -1153,6 +1153,8 @@ pub fn property() -> Property {
             gen_sub::<Case>("permissioned", 900, 15000, strat_permissioned, run_case),
             // the low-level helper used directly: decides "user equal to the forwarder" where real authorization can reach it
             gen_sub::<super::c19b::Case>("collect-fee-direct", 900, 15000, super::c19b::strategy, super::c19b::run),
+            // role guards of the permissioned forwarder (forward / enable / disable / sweep) x six authorization variants
+            gen_sub::<super::c06b::GCase>("permissioned-guards", 150, 3000, super::c19b::guards_strategy, super::c19b::run_guards),
         ],
         // <= 1/10 of the minimum measured over seeds 0..5 (quick); thorough = 10 x quick
         floors: vec![
@@ -1198,5 +1200,6 @@ pub fn property() -> Property {
         ],
     };
     p.floors.extend(super::c19b::FLOORS.iter().cloned());
+    p.floors.extend(super::c19b::GUARD_FLOORS.iter().cloned());
     p
 }
